@@ -55,7 +55,9 @@ def th_scheme(check, proj, c):
         # value per cell).  A scaling on the column side, J D^c, is another system for local time steps.
         sc = getattr(mat, "rowp", 0)
         want_ident = {sc - 1: 1 + xi}
-        if getattr(mat, "colp", 0) != 0:
+        if getattr(mat, "tiled", False):
+            check.violation("TH-SCHEME", where, "the per-cell time step is expanded to the unknowns with np.tile (variable-major: all cells of equation 0, then equation 1 ...) while the packed vectors and the Jacobian are interleaved cell by cell: with a local-time-step array and more than one equation each cell is advanced with other cells' steps", loc, key="dt-tiled")
+        elif getattr(mat, "colp", 0) != 0:
             check.violation("TH-SCHEME", where, "the Jacobian is scaled by the time-step array on the COLUMN side (matrix %r): numpy broadcasts a 1-D array along the last axis, so `dt_array * J` is J*diag(dt), not diag(dt)*J; with a local-time-step array the system solved is not the theta scheme" % (mat,), loc, key="col-scaling")
         elif mat.ident == want_ident and mat.jac == -theta:
             check.ok("TH-SCHEME", where, "matrix is %s(1+xi)/dt*I - theta*J%s with (theta, xi) = (%s, %s)" % ("diag(dt)^%d * [" % sc if sc else "", "]" if sc else "", theta, xi), loc)
